@@ -609,11 +609,12 @@ def main(tier):
         nus = {0: (1, 2), 'line': (1, 2)}
         bands = [1, 2, 5, 6, 7, 11, 12, 16]
     else:
-        pt_shapes = [s for s in itertools.product((2, 3, 4), repeat=3)]
-        line_n = (3, 4, 5, 6)
+        pt_shapes = [s for s in itertools.product((2, 3, 4, 5), repeat=3)
+                     if int(np.prod(s)) <= 80]
+        line_n = (3, 4, 5, 6, 7, 8)
         other = [(2, 2), (3, 2), (2, 3), (3, 3), (4, 2), (2, 4), (4, 3)]
         nus = {0: (1, 2, 3, 4), 'line': (1, 2, 3, 4)}
-        bands = list(range(1, 27))
+        bands = list(range(1, 37))
     if tier == 'quick':
         for nu in (3, 4):
             jobs.append(('case_local_systems', (0, (2, 3, 3), nu,
